@@ -518,6 +518,65 @@ class Builder:
             edits.append(Edit(a + mm.start(), a + mm.end(), [Seg(".vx_to_%s_bytes(" % mm.group(1), "repo", fn=qual)]))
             self.count("R4.to_bytes")
         for rule in (xopts or {}).get("rules", []):
+            if rule[0] == "R6":
+                # Option<Vec<T>>::as_deref() -> trusted wrapper method (std's version is Deref-generic)
+                for mm in re.finditer(r"\.\s*as_deref\s*\(", m[a:b]):
+                    edits.append(Edit(a + mm.start(), a + mm.end(), [Seg(".vx_as_deref(", "repo", fn=qual)]))
+                    self.count("R6")
+            if rule[0] == "R12b":
+                # item.try_into() on a store item -> trusted wrapper (PasskeyItem: TryInto<Passkey>)
+                for mm in re.finditer(r"\.\s*try_into\s*\(", m[a:b]):
+                    edits.append(Edit(a + mm.start(), a + mm.end(), [Seg(".vx_try_into_passkey(", "repo", fn=qual)]))
+                    self.count("R12b")
+            if rule[0] == "R15":
+                # Vec<u8>::extend(Bytes) -> trusted wrapper method (std's version is IntoIterator-generic)
+                for mm in re.finditer(r"\.\s*extend\s*\(", m[a:b]):
+                    edits.append(Edit(a + mm.start(), a + mm.end(), [Seg(".vx_extend(", "repo", fn=qual)]))
+                    self.count("R15")
+            if rule[0] == "R16":
+                # "literal".into() -> "literal".to_string()  (From<&str> for String has no vstd spec)
+                for mm in re.finditer(r"(\"\s*\")\s*\.\s*into\s*\(\s*\)", m[a:b]):
+                    edits.append(Edit(a + mm.start() + len(mm.group(1)), a + mm.end(), [Seg(".to_string()", "repo", fn=qual)]))
+                    self.count("R16")
+                for mm in re.finditer(r"(\"[^\"\n]*\")\s*\.\s*into\s*\(\s*\)", src[a:b]):
+                    if m[a + mm.start()] == '"' and not re.match(r"\"\s*\"", m[a + mm.start():a + mm.end()]) is None:
+                        continue
+                    if any(e.a == a + mm.start() + len(mm.group(1)) for e in edits):
+                        continue
+                    edits.append(Edit(a + mm.start() + len(mm.group(1)), a + mm.end(), [Seg(".to_string()", "repo", fn=qual)]))
+                    self.count("R16")
+            if rule[0] == "R14":
+                # `let P = E?;` where E ends in a call of a listed method: desugar `?` (Rust reference desugaring)
+                for meth in rule[1:]:
+                    for mm in re.finditer(r"\.\s*" + re.escape(meth) + r"\s*\(", m[a:b]):
+                        cp = rs.match_close(m, a + mm.end() - 1)
+                        t = re.match(r"\s*(?:\.\s*await\s*)?\?", m[cp + 1:b])
+                        if not t:
+                            continue
+                        q = cp + 1 + t.end() - 1  # index of '?'
+                        # start of the expression: after the `=` of the enclosing `let`
+                        k = a + mm.start()
+                        depth = 0
+                        eq = None
+                        while k > a:
+                            ch = m[k]
+                            if ch in ")]}":
+                                depth += 1
+                            elif ch in "([{":
+                                if depth == 0:
+                                    break
+                                depth -= 1
+                            elif ch == ";" and depth == 0:
+                                break
+                            elif ch == "=" and depth == 0 and m[k - 1] not in "=!<>" and m[k + 1] not in "=>":
+                                eq = k
+                                break
+                            k -= 1
+                        if eq is None:
+                            raise LostAnchor("R14: no `let .. =` before .%s(..)? in %s" % (meth, qual))
+                        edits.append(Edit(eq + 1, eq + 1, [Seg(" match", "repo", fn=qual)]))
+                        edits.append(Edit(q, q + 1, [Seg(" { Ok(vx_v) => vx_v, Err(vx_e) => return Err(vx_e.into()) }", "repo", fn=qual)]))
+                        self.count("R14")
             if rule[0] == "R10":
                 # E.get_mut(&k) on a HashMap<u32, _> place listed in the unit -> vx_hashmap_get_mut(&mut E, &k)
                 for recv in rule[1:]:
